@@ -389,16 +389,16 @@ def existingMap : Option V → Option (List (String × V))
   | some (.map ⟨.string, true⟩ kvs) => strKeys? kvs
   | some _ => none
 
-/-- the recursive calls over the sub-object's properties -/
-def subDefProps {α} (rec : α → Option V → Out (Option V)) :
+/-- the recursive calls over the sub-object's properties (`rec` gets the property ID too) -/
+def subDefProps {α} (rec : String → α → Option V → Out (Option V)) :
     List (String × α) → List (String × V) → Out (List (String × V))
   | [], d => .ok d
   | (k, p) :: rest, d =>
-    (rec p (lookupS k d)).bind fun o =>
+    (rec k p (lookupS k d)).bind fun o =>
       subDefProps rec rest (match o with | some v => setKey k v d | none => d)
 
 /-- `applySubObjectDefaultValues` for a map-backed property type: the new `rawData[propertyID]`
-    (`none` = absent) given the present one -/
+    (`none` = absent) given the present one (a map-backed owner has no field table) -/
 def subDefTy : Nat → Ty → Option V → Out (Option V)
   | 0, _, _ => .fuel
   | n + 1, .obj _ props, ex =>
@@ -406,39 +406,50 @@ def subDefTy : Nat → Ty → Option V → Out (Option V)
     | none => .ok ex
     | some d0 =>
       (defaultsOf props).bind fun defs =>
-        (subDefProps (fun (p : PropT) e => subDefTy n p.ty e) props (overlay d0 defs)).bind fun d =>
+        (subDefProps (fun _ (p : PropT) e => subDefTy n p.ty e) props (overlay d0 defs)).bind fun d =>
           .ok (if d.isEmpty then ex else some (toStrAny d))
   | _ + 1, _, ex => .ok ex
 
+/-- is property `k` of the struct-mapped owner `st` mapped to a pointer or interface field? Such a
+    sub-object stays nil when it is not given (as repaired in 177d942), like one declared with a
+    pointer type: `applySubObjectDefaultValues` returns before looking at it. -/
+def fieldSkips (st : StructTy) (k : String) : Bool :=
+  match fieldFor st k with
+  | some f => f.ty.isPtr || f.ty == .iface
+  | none => false
+
 /-- `applySubObjectDefaultValues`: nothing for pointer-typed properties, for scopes, for
     non-objects and for a present value that is not a map; otherwise the existing (default) map,
-    completed by the sub-object's own defaults, then the same for every property of the sub-object.
+    completed by the sub-object's own defaults, then the same for every property of the sub-object
+    that is not mapped to a pointer or interface field of the sub-object's struct type.
     (Schema trees here are finite - references are inlined - so the guard against objects that refer
     back to themselves never fires.) -/
 def subDefS : Nat → STy → Option V → Out (Option V)
   | 0, _, _ => .fuel
   | n + 1, .leaf t, ex => subDefTy (n + 1) t ex
-  | n + 1, .obj _ _ ptrT props, ex =>
+  | n + 1, .obj _ st ptrT props, ex =>
     if ptrT then .ok ex else
     match existingMap ex with
     | none => .ok ex
     | some d0 =>
       (defaultsOf (rulesOf props)).bind fun defs =>
-        (subDefProps (fun (p : SProp) e => subDefS n p.ty e) props (overlay d0 defs)).bind fun d =>
+        (subDefProps (fun k (p : SProp) e => if fieldSkips st k then .ok e else subDefS n p.ty e) props
+          (overlay d0 defs)).bind fun d =>
           .ok (if d.isEmpty then ex else some (toStrAny d))
   | _ + 1, _, ex => .ok ex
 
-/-- `convertData`, second loop, for a struct-mapped object: defaults of absent properties, then the
-    defaults of their sub-objects -/
-def applyDefaultsS (fuel : Nat) : List (String × SProp) → List (String × V) → Out (List (String × V))
+/-- `convertData`, second loop, for a struct-mapped object over the struct type `st`: defaults of
+    absent properties, then the defaults of their sub-objects (not behind pointer / interface fields) -/
+def applyDefaultsS (st : StructTy) (fuel : Nat) : List (String × SProp) → List (String × V) → Out (List (String × V))
   | [], m => .ok m
   | (k, p) :: rest, m =>
-    if hasKey k m then applyDefaultsS fuel rest m else
+    if hasKey k m then applyDefaultsS st fuel rest m else
     match p.rules.defaultV with
     | some none => .panic
     | d =>
-      (subDefS fuel p.ty (match d with | some (some v) => some v | _ => none)).bind fun o =>
-        applyDefaultsS fuel rest (match o with | some v => m ++ [(k, v)] | none => m)
+      (if fieldSkips st k then .ok (match d with | some (some v) => some v | _ => none)
+       else subDefS fuel p.ty (match d with | some (some v) => some v | _ => none)).bind fun o =>
+        applyDefaultsS st fuel rest (match o with | some v => m ++ [(k, v)] | none => m)
 
 /-! ### construction -/
 
@@ -606,7 +617,7 @@ def SV.rawEntries? (s : SV) : Option (List (V × V)) :=
   | none => none
 
 /-- `ObjectSchema.Unserialize` of a struct-mapped object up to the interdependency check -/
-def sobjRaw (rec : SRec) (fuel : Nat) (props : List (String × SProp)) (s : SV) : Out (List (String × SV)) :=
+def sobjRaw (rec : SRec) (fuel : Nat) (st : StructTy) (props : List (String × SProp)) (s : SV) : Out (List (String × SV)) :=
   match s.rawEntries? with
   | none =>
     match props with
@@ -621,7 +632,7 @@ def sobjRaw (rec : SRec) (fuel : Nat) (props : List (String × SProp)) (s : SV) 
       -- (a Go map has no two equal keys: a value with a repeated key is not a Go value)
       if !(decide (skvs.map (·.1)).Nodup) then .cerr else
       if skvs.any (fun kv => !(hasKey kv.1 props)) then .cerr else
-      (applyDefaultsS fuel props skvs).bind fun m => forSVS (entryUS rec props) m
+      (applyDefaultsS st fuel props skvs).bind fun m => forSVS (entryUS rec props) m
 
 /-- Validate / Serialize of one set property of a struct value -/
 def entryVS (rec : SRec) (op : SOp) (props : List (String × SProp)) (k : String) (e : SV) : Out SV :=
@@ -633,7 +644,7 @@ def runObjS (rec : SRec) (fuel : Nat) (op : SOp) (st : StructTy) (ptrT : Bool)
     (props : List (String × SProp)) (s : SV) : Out SV :=
   match op with
   | .U =>
-    (sobjRaw rec fuel props s).bind fun m =>
+    (sobjRaw rec fuel st props s).bind fun m =>
       (interdeps (rulesOf props) (fun k => hasKey k m)).bind fun _ =>
         (toStruct st props m).bind fun fs => .ok (wrapT ptrT st.name fs)
   | .V =>
